@@ -156,12 +156,15 @@ CHECKS = {
  "C07": {
   "category": "proof",
   "text": "VFile.v models vorbisfile's position bookkeeping (link table, fetch/process, reads, raw/page/sample seeks) on the page table, with the decoder "
-          "automaton of Blocking.v underneath. Proved: each read's consuming step advances the position by exactly the count returned and touches nothing else. "
-          "The full refinement (position = next sample of the linear decode after ANY history) is not yet a theorem: it is checked per run by replaying random "
-          "seek/read histories on chained files against the model (return code, positions, state, link) and by comparing every read bit for bit with an "
-          "independent packet-level decode at the reported position.",
+          "automaton of Blocking.v underneath. Proved: each read's consuming step advances the position by exactly the count returned and touches nothing else; and truthfulness of linear "
+          "reading at full rate: from any synchronised handle (reported position = position of the next sample in the link, decoder tracking agrees), after ANY "
+          "number of intact packets of the link - with or without granule positions - each packet delivers exactly its block step, the reported position advances "
+          "by exactly the samples delivered and the handle is synchronised again (Sync_lemmas.v, by induction over the packet list). NOT a theorem: that every seek "
+          "re-establishes the synchronisation invariant, half-rate, end-of-stream trim; these are checked per run by replaying random seek/read histories on chained "
+          "files against the model (return code, positions, state, link) and by comparing every read bit for bit with an independent packet-level decode at the "
+          "reported position.",
   "note": VF_NOTE,
-  "technique": "Coq model + partial proof (consuming step); step-by-step correspondence of extracted model vs lib/vorbisfile.c; bit-exact position oracle",
+  "technique": "Coq model + partial proof (consuming step; linear-read synchronisation invariant); step-by-step correspondence of extracted model vs lib/vorbisfile.c; bit-exact position oracle",
  },
  "C08": {
   "category": "proof",
